@@ -12,6 +12,8 @@ off; long adaptive histories; watchdogs everywhere.
 import CambrianModel.Model.MetaAdapt
 import CambrianModel.Lemmas.CtlStep
 import CambrianModel.Model.Spec
+import CambrianModel.Lemmas.JsonableLemmas
+import CambrianModel.Lemmas.AlgRun
 namespace Cambrian.Props
 open Cambrian Cambrian.Ctl Cambrian.Meta
 
@@ -108,5 +110,27 @@ theorem C15_variant_init (o : SFields) (i : String) (h : wf (.variant o i) = tru
   simp only [wf, Bool.and_eq_true] at h
   obtain ⟨⟨_, hc⟩, _⟩ := h
   exact lookup_of_keys_contains o i hc
+
+/-! ### `Value::to_json` (the controller writes every new individual as JSON before it is evaluated) -/
+
+/-- The only panic site of `Value::to_json` is `Number::from_f64(x).unwrap()` on a real that is not finite
+    (`jsonable`: every real of the value is finite).  A value that conforms to its spec is written without a panic. -/
+theorem C15_to_json_safe (s : SNode) (v : VNode) (h : conf s v = true) : jsonable v = true :=
+  conf_jsonable s v h
+
+/-- Hence no run crashes while handing a parameter set to the objective function: in the closed model (controller,
+    algorithm core, code-shaped operators) every parameter set ever started can be written as JSON - for every random
+    stream, schedule, sample size and concurrency. -/
+theorem C15_run_jsonable (spec : SNode) (hs : wf spec = true) (c : Cfg) (ss : Nat) (v0 d : VNode)
+    (hv0 : conf spec v0 = true) (chs : Nat → Algo.Choice VNode) (hchs : AlgInit spec v0 chs)
+    (evs : List (Ev VNode)) (halg : AlgFrom spec c (init c ss (some v0) d chs).1 evs)
+    (sd id : Nat) (v : VNode) (hstart : Act.start sd id v ∈ (run c ss (some v0) d chs evs).2) :
+    jsonable v = true :=
+  conf_jsonable spec v ((run_confInv_alg spec hs c ss v0 d hv0 chs hchs evs halg).startsOk sd id v hstart)
+
+/-- negative witnesses: an infinite or NaN real anywhere in the value is what makes `to_json` panic -/
+example : jsonable (.sub (.cons "x" (.real .pinf) .nil)) = false := by decide
+example : jsonable (.amap (.cons 3 (.osome (.real .nan)) .nil)) = false := by decide
+example : jsonable (.sub (.cons "x" (.real (.fin 0)) (.cons "y" (.int 3) .nil))) = true := by decide
 
 end Cambrian.Props
